@@ -122,6 +122,7 @@ func cloneAll(ns []*recipe.Node) []*recipe.Node {
 func TestC12Mixed(t *testing.T) {
 	r := hx.Start(t, "C12")
 	defer r.Finish(t)
+	r.Rule("mixed_literals_one_file: 1..6 string / rune / byte literals (the same 13 characters in all three kinds, plus random strings; Func variants) as items of Values / Call / List / Case / Index / multi-line Custom, twice in one File; the token sequence must be the construct holding identifiers with each identifier replaced by the tokens the literal renders to alone in a File of its own")
 	names := []string{"values", "call", "list", "case", "index", "custom"}
 	hx.Rapid(r, t, hx.Check[mixedCase]{Name: "mixed_literals_one_file", Fn: checkMixed}, r.N(3000, 30000), func(rt *rapid.T) mixedCase {
 		c := mixedCase{Holder: rapid.SampledFrom(names).Draw(rt, "holder")}
